@@ -188,7 +188,8 @@ def _anyall_form(s, used_outside, counter):
         pred = ast.UnaryOp(op=ast.Not(), operand=elt)
         neg = not neg
     found, missing = (s.orelse, s.body) if neg else (s.body, s.orelse)
-    inner = ast.If(test=pred, body=list(found) + [ast.Break()], orelse=[])
+    inner = ast.If(test=pred, body=list(found) + (
+        [] if _ends_in_jump(list(found)) else [ast.Break()]), orelse=[])
     body = [inner]
     for cond in reversed(g.ifs):
         body = [ast.If(test=cond, body=body, orelse=[])]
@@ -309,7 +310,8 @@ def _hoist_ifexp(s, taken, counter):
         return None
     holder, field = hf
     root = getattr(holder, field)
-    if isinstance(root, ast.IfExp):
+    if isinstance(root, ast.IfExp) and isinstance(s, (ast.Assign,
+                                                      ast.Return)):
         return None              # the statement forms handle these
     order = []
     _eval_order(root, order)
@@ -448,7 +450,7 @@ def desugar_function(fn):
             h = _hoist_ifexp(stmts[i], taken, counter) if has_ifexp and any(
                 isinstance(n, ast.IfExp) for n in ast.walk(stmts[i])) and \
                 not isinstance(stmts[i], (ast.FunctionDef, ast.ClassDef,
-                                          ast.AsyncFunctionDef, ast.For,
+                                          ast.AsyncFunctionDef,
                                           ast.While, ast.With, ast.Try)) \
                 else None
             if h is not None:
@@ -489,6 +491,82 @@ def desugar_function(fn):
                 done[0] += 1
                 guard += 1
                 break
+            # `x = next((e for t in it if c), d)` -> `x = d` + loop that binds
+            # the first item and stops
+            if isinstance(s, ast.Assign) and len(s.targets) == 1 and \
+                    isinstance(s.targets[0], ast.Name) and \
+                    isinstance(s.value, ast.Call) and \
+                    isinstance(s.value.func, ast.Name) and \
+                    s.value.func.id == "next" and len(s.value.args) == 2 and \
+                    not s.value.keywords and \
+                    isinstance(s.value.args[0], ast.GeneratorExp) and \
+                    len(s.value.args[0].generators) == 1 and \
+                    isinstance(s.value.args[1], (ast.Constant, ast.Name)) and \
+                    not any(isinstance(n, ast.Name) and
+                            n.id == s.targets[0].id
+                            for n in ast.walk(s.value.args[0])):
+                gen = s.value.args[0]
+                inside = {id(n) for n in ast.walk(gen)}
+                used = {n.id for n in ast.walk(fn) if isinstance(n, ast.Name)
+                        and id(n) not in inside}
+                used |= {a.arg for a in ast.walk(fn) if isinstance(a, ast.arg)}
+                g = copy.deepcopy(gen.generators[0])
+                elt = copy.deepcopy(gen.elt)
+                mp = {}
+                for nm in _target_names(g.target):
+                    if nm in used:
+                        counter[0] += 1
+                        mp[nm] = "%s__c%d" % (nm, counter[0])
+                if mp:
+                    r = _Ren(mp)
+                    elt = r.visit(elt)
+                    g.target = r.visit(g.target)
+                    g.ifs = [r.visit(x) for x in g.ifs]
+                tgt = s.targets[0].id
+                init = ast.copy_location(ast.Assign(
+                    targets=[ast.Name(id=tgt, ctx=ast.Store())],
+                    value=s.value.args[1], lineno=s.lineno), s)
+                body = [ast.Assign(targets=[ast.Name(id=tgt, ctx=ast.Store())],
+                                   value=elt, lineno=s.lineno), ast.Break()]
+                for cond in reversed(g.ifs):
+                    body = [ast.If(test=cond, body=body, orelse=[])]
+                _store(g.target)
+                loop = ast.For(target=g.target, iter=g.iter, body=body,
+                               orelse=[])
+                ast.copy_location(loop, s)
+                for sub_ in ast.walk(loop):
+                    if isinstance(sub_, (ast.expr, ast.stmt)) and \
+                            not hasattr(sub_, "lineno"):
+                        ast.copy_location(sub_, s)
+                ast.fix_missing_locations(init)
+                ast.fix_missing_locations(loop)
+                out.append(init)
+                s = loop
+                done[0] += 1
+            # `return any(...)` / `x = all(...)`: any/all yield True or False,
+            # so this is `if any(...): return True  else: return False`
+            v0 = s.value if isinstance(s, (ast.Return, ast.Assign)) else None
+            neg0 = False
+            if isinstance(v0, ast.UnaryOp) and isinstance(v0.op, ast.Not):
+                v0, neg0 = v0.operand, True
+            if isinstance(v0, ast.Call) and isinstance(v0.func, ast.Name) and \
+                    v0.func.id in ("any", "all") and len(v0.args) == 1 and \
+                    not v0.keywords and \
+                    isinstance(v0.args[0], ast.GeneratorExp) and (
+                        isinstance(s, ast.Return) or (
+                            len(s.targets) == 1 and
+                            isinstance(s.targets[0], ast.Name))):
+                def mkc(val, s=s):
+                    c = ast.Constant(value=val)
+                    if isinstance(s, ast.Return):
+                        return ast.copy_location(ast.Return(value=c), s)
+                    return ast.copy_location(ast.Assign(
+                        targets=[copy.deepcopy(s.targets[0])], value=c,
+                        lineno=s.lineno), s)
+                s = ast.copy_location(ast.If(
+                    test=v0, body=[mkc(not neg0)], orelse=[mkc(neg0)]), s)
+                ast.fix_missing_locations(s)
+                done[0] += 1
             if isinstance(s, ast.If) and isinstance(
                     s.test, (ast.Call, ast.UnaryOp)):
                 inside = {id(n) for n in ast.walk(s.test)}
@@ -499,6 +577,9 @@ def desugar_function(fn):
                 if f is not None:
                     s = f
                     done[0] += 1
+                    # the arms may hold further any()/all() tests
+                    s.body = block(s.body)
+                    s.orelse = block(s.orelse)
             ef = _extend_form(s, counter)
             if ef is not None:
                 s = ef
